@@ -144,6 +144,28 @@ func genC03(r *rng, tier string, emit func(string)) {
 	for i := 0; i < 10*n; i++ {
 		emit(fmt.Sprintf("mecon %s %s", bhex(limbPattern(r)), bhex(limbPattern(r))))
 	}
+	// points of the curve whose x coordinate lies in [n, p) (the field prime, not the group order, bounds a coordinate)
+	{
+		cp := sm2.P256Sm2().Params()
+		A := new(big.Int).Sub(cp.P, big.NewInt(3))
+		found := 0
+		for i := int64(0); found < 6 && i < 400; i++ {
+			x := new(big.Int).Add(sm2N, big.NewInt(i))
+			if i%2 == 1 {
+				x = new(big.Int).Sub(cp.P, big.NewInt(1+i))
+			}
+			rhs := new(big.Int).Exp(x, big.NewInt(3), cp.P)
+			rhs.Add(rhs, new(big.Int).Mul(A, x)).Add(rhs, cp.B).Mod(rhs, cp.P)
+			y := new(big.Int).ModSqrt(rhs, cp.P)
+			if y == nil {
+				continue
+			}
+			found++
+			emit(fmt.Sprintf("econ %s %s", bhex(x), bhex(y)))
+			emit(fmt.Sprintf("mecon %s %s", bhex(x), bhex(new(big.Int).Sub(cp.P, y))))
+			emit(fmt.Sprintf("ecsmul %s %s %s", bhex(x), bhex(y), hx(r.biasedScalar())))
+		}
+	}
 	// membership is about pairs of field elements: a point of the curve with p (or 2p) added to a coordinate is refused
 	for i := 0; i < n/4+8; i++ {
 		p := P()
